@@ -7,7 +7,7 @@ ids = [p['id'] for p in props]
 # id -> (technique, level text, level note, design ref)
 CHECKS = {
  'C02': ("bounded-exhaustive history exploration (BFS over open/change/save/close histories, states merged on buffer text) of the real handlers against a reference UTF-16 text buffer",
-         "every document over {a,é,中,😀,LF,CRLF,CR} up to the length bound, every range over its valid UTF-16 positions x 6 insert texts, one- and two-edit batches, and every open/incremental/full/save/close history up to the depth bound is executed on the real FileMapCache / LspServer handlers and the cached text compared with the reference buffer after every event; a coverage statement over a closed small scope, which is what a byte-for-byte equality claim over all edit histories needs",
+         "every document over {a,é,中,😀,LF,CRLF,CR} up to the length bound, every range over its valid UTF-16 positions x 6 insert texts, one- and two-edit batches, and every open/incremental/full/save/close history up to the depth bound is executed on the real FileMapCache / LspServer handlers and the cached text compared with the reference buffer after every event; a change outside the document followed by didSave must leave exactly the saved text; a coverage statement over a closed small scope, which is what a byte-for-byte equality claim over all edit histories needs",
          "trusted: the reference buffer in internal/textref (LSP 3.17 position semantics), the accessor overlay that reads LspServer.fileCache; bounds: documents <=3/4 symbols, histories <=3/4 events, one file",
          "DESIGN.md §4 C02"),
  'C03': ("bounded-exhaustive input enumeration (all token strings <=3/4, grammar-directed programs with all single-token mutants, token strings planted in 31 syntactic contexts, all small numerals/strings/brackets/comments, all trivia assignments) against an independent reference recogniser",
@@ -23,7 +23,7 @@ CHECKS = {
          "trusted: internal/luaref binder; names that no file ever assigns are don't-care; order/duplicates ignored; bounds as C05",
          "DESIGN.md §4 C06"),
  'C07': ("bounded-exhaustive program enumeration (same program spaces, two configuration channels) on the real server against diagnostics predicted from the reference binder (three-valued oracle)",
-         "with all checks on, the published type 2/3/4/17 diagnostics of every enumerated program are compared with must / must-not / don't-care obligations derived from the reference binding: an unbound read must be reported, a bound name never, an unread plain local must be reported unused, a read local never",
+         "with all checks on, the published type 2/3/4/17 diagnostics of every enumerated program are compared with must / must-not / don't-care obligations derived from the reference binding: an unbound read must be reported, a bound name never, an unread plain local must be reported unused (also when named _a, __, a_), a read local never",
          "trusted: internal/luaref binder; don't-care zones listed in the evidence assumptions (idiom contexts, load-order cases, exempt declaration kinds); client flags and luahelper.json (ignore lists) channels",
          "DESIGN.md §4 C07"),
  'C12': ("bounded-exhaustive program enumeration plus exhaustive sweep of all identifier positions of the repository testdata, metamorphic oracle over the real server's own answers",
@@ -56,14 +56,14 @@ CHECKS = {
          "DESIGN.md §4 C19"),
  'C20': ("bounded-exhaustive enumeration of pattern instances and near-misses (per-pattern small spaces x syntactic contexts x nesting wraps) on the real server against independent pattern matchers with explicit don't-care zones",
          "each documented pattern check (5,7,8,13,14,15,16,19,20,21) is confronted with every instance and near-miss of its small space planted in every context; on the instance line the type must appear exactly once, must not appear, or is not judged, and never on another line",
-         "trusted: matchers written from docs/manual/config.md and the property text; don't-care zones listed in the evidence; bounds: 13 operators x 10x10 operands x 12 contexts x 4/9 wraps, tables <=3 entries, <=3 targets/values/parameters/conditions",
+         "trusted: matchers written from docs/manual/config.md and the property text; don't-care zones listed in the evidence; bounds: 13 operators x 10x10 operands x 15 contexts x 4/9 wraps, tables <=3 entries, <=3 targets/values/parameters/conditions",
          "DESIGN.md §4 C20"),
  'C17': ("exhaustive enumeration of configurations (all 2^26 flag vectors on the real flag mapping; all 1-3 flag deviations x 3 delivery channels and all ignore-rule subsets <=2 x channels on the real server) with a metamorphic oracle diag(c) = filter_c(diag(all enabled))",
-         "the complete flag space is pushed through the real flag-to-ignore-set mapping, and on a fixed workspace that triggers 19 diagnostic types every one/two/three-flag deviation from all-on and all-off, the master switch and every subset <=2 of file ignore rules (literal, folder, regex, non-matching, invalid regex) is run on the real server through initializationOptions, a later didChangeConfiguration and luahelper.json; the shown diagnostics must be exactly the all-enabled ones that the configuration does not exclude; malformed patterns must not take the server down",
+         "the complete flag space is pushed through the real flag-to-ignore-set mapping, and on a fixed workspace that triggers 19 diagnostic types every one/two/three-flag deviation from all-on and all-off, the master switch and every subset <=2 of file ignore rules (literal, folder, regex, non-matching, invalid regex; one class is declared in an ignored and in a normal file) is run on the real server through initializationOptions, a later didChangeConfiguration and luahelper.json; the shown diagnostics must be exactly the all-enabled ones that the configuration does not exclude; malformed patterns must not take the server down",
          "trusted: the filter semantics as stated by the property and docs/manual/config.md (substring or Go regex on the file path); the workspace in checks/c17.go; the check reports a vacuous baseline if fewer than 14 types appear",
          "DESIGN.md §4 C17"),
  'C18': ("bounded-exhaustive enumeration of directory trees x requiring file x module string x call form x separator x one create/delete event on the real server; three-valued reference resolver plus cross-feature consistency",
-         "every subset of <=3/4 of six candidate module files, two requiring locations, seven module strings, three call forms and both separators, before and after one watched create/delete event: the type-6 diagnostic, go-to-definition and hover on the string and the file the analysis loaded must agree, modules existing at the documented path must resolve to a file with that trailing path, modules for which no such file exists must be reported, and the verdict must flip at once after the event",
+         "every subset of <=3/4 of eight candidate module files, two requiring locations, eight module strings, three call forms and both separators (plus two small spaces: module strings ending in .lua, directories whose name ends with a module segment), before and after one watched create/delete event: the type-6 diagnostic, go-to-definition and hover on the string and the file the analysis loaded must agree, modules existing at the documented path must resolve to a file with that trailing path, modules for which no such file exists must be reported, and the verdict must flip at once after the event",
          "trusted: the documented mapping as stated by the property (name.lua then name/init.lua relative to the root or the requiring file's directory); fuzzy suffix matches, equally ranked duplicates (C09's subject), other-separator strings and native .so modules are don't-care",
          "DESIGN.md §4 C18"),
  'C09': ("stateless schedule exploration (deviation-bounded DFS with prefix replay) of the real server under a controlled runtime, crossed with pool width and every start offset of Go's map iteration; all executions of a workspace must give identical observables; plus directory-listing order (os overlay: natural/reversed/rotated) and, as a non-exhaustive complement, a free-running pass of the same closed systems under Go's race detector",
@@ -71,7 +71,7 @@ CHECKS = {
          "trusted: the controlled runtime (overlay/vrt) and the syntactic instrumenter (cmd/vinstr): an operation it does not know would block outside the scheduler and is reported as a harness error; granularity and bounds as stated in the evidence; memory-model effects below the instrumented operations are out of scope",
          "DESIGN.md §4 C09, §8.4"),
  'C10': ("stateless schedule exploration of the real handlers under the controlled runtime for every word of 2-3 in-flight messages allowed by the dispatcher model (TLA+ model checked by TLC, all its behaviours replayed against the real jrpc2.Server); oracles: lockset/overlap check, no panic/deadlock, every answer produced by some sequential order; plus, as a non-exhaustive complement, every ordered pair and request-notification-request triple of 19 messages sent back to back to the real jrpc2 server in a -race build (any race report with a repository frame is a violation)",
-         "each of 15 message kinds is paired with every other (and tripled in thorough); every interleaving with <=2-3 deviations at lock, channel and shared-object method-entry points is executed on the real handlers; a conflicting overlap of two activations on the same shared object without a common lock, a panic, a deadlock, or an answer that no sequential order produces is a violation; the harness dispatches handlers exactly as tla/Dispatch.tla allows, and every TLC behaviour for <=3 (thorough: 4) messages is replayed against the real dispatcher with gated stubs",
+         "each of 17 message kinds (two of them requests at a place without an identifier) is paired with every other (and tripled in thorough); every interleaving with <=2-3 deviations at lock, channel and shared-object method-entry points is executed on the real handlers; a conflicting overlap of two activations on the same shared object without a common lock, a panic, a deadlock, or an answer that no sequential order produces is a violation; the harness dispatches handlers exactly as tla/Dispatch.tla allows, and every TLC behaviour for <=3 (thorough: 4) messages is replayed against the real dispatcher with gated stubs",
          "trusted: overlay/vrt, cmd/vinstr (syntactic writer classification), tla/Dispatch.tla as the model of jrpc2's dispatch; interleaving granularity = synchronisation operations and shared-object method entries; sequential specification = the same build on one thread",
          "DESIGN.md §4 C10, Appendix A, §8.4"),
  'C15': ("bounded-exhaustive enumeration of class hierarchies (every parent-set assignment over 2/3 classes incl. cycles) x alias shapes x wrapper types x file layouts on the real server against a cycle-safe transitive-closure model",
